@@ -994,17 +994,26 @@ func (pkg *Package) needsPlist() (bool, *Line) {
 	// TODO: In the below code, it shouldn't be necessary to mention
 	//  each variable name twice.
 
+	// IsDefined looks at the first definition, LastDefinition at the last one,
+	// which may be a commented assignment (for example from mk/defaults/mk.conf).
+	line := func(varname string) *Line {
+		if mkline := vars.LastDefinition(varname); mkline != nil {
+			return mkline.Line
+		}
+		return vars.FirstDefinition(varname).Line
+	}
+
 	if vars.IsDefined("PERL5_PACKLIST") {
-		return false, vars.LastDefinition("PERL5_PACKLIST").Line
+		return false, line("PERL5_PACKLIST")
 	}
 
 	if vars.IsDefined("PERL5_USE_PACKLIST") {
 		needed := strings.ToLower(vars.LastValue("PERL5_USE_PACKLIST")) == "no"
-		return needed, vars.LastDefinition("PERL5_USE_PACKLIST").Line
+		return needed, line("PERL5_USE_PACKLIST")
 	}
 
 	if vars.IsDefined("META_PACKAGE") {
-		return false, vars.LastDefinition("META_PACKAGE").Line
+		return false, line("META_PACKAGE")
 	}
 
 	return true, NewLineWhole(pkg.File("Makefile"))
